@@ -41,6 +41,8 @@ type c01Event struct {
 	State    map[string]c01Val `json:"state,omitempty"`
 	Wait     bool              `json:"wait,omitempty"`
 	Scope    int               `json:"scope"`
+	DefScope bool              `json:"def_scope,omitempty"` // root monitor created without a scope (the processor's default: global scope) ...
+	Edit     map[string]bool   `json:"edit,omitempty"`      // ... whose Scope() is then narrowed / widened by its owner before the event is added
 	Children []c01Event        `json:"children,omitempty"`
 	PauseNs  int               `json:"pause,omitempty"`
 }
@@ -68,6 +70,28 @@ var c01Segs = []string{"a", "b", "c"}
 var c01Keys = []string{"k1", "k2", "k3"}
 var c01Names = []string{"e0", "e1", "e2"}
 var c01ScopePaths = []string{"", "s", "s.t", "s.t.u", "v"}
+
+// paths with an empty segment: a segment is whatever stands between two dots
+var c01OddScopePaths = []string{"s.", ".s", "s..t", "s.t."}
+
+func c01GenScopePath(r *simrt.RNG) string {
+	if r.Bool(0.06) {
+		return c01OddScopePaths[r.Intn(len(c01OddScopePaths))]
+	}
+	return c01ScopePaths[r.Intn(len(c01ScopePaths))]
+}
+
+// scopeMap is the scope definition of the cascade the event belongs to.
+func (e *c01Event) scopeMap(p *c01Plan) map[string]bool {
+	if !e.DefScope {
+		return p.Scopes[e.Scope]
+	}
+	m := map[string]bool{"": true}
+	for k, v := range e.Edit {
+		m[k] = v
+	}
+	return m
+}
 
 func c01GenKind(r *simrt.RNG, pattern bool) string {
 	n := 1 + r.Intn(3)
@@ -165,7 +189,7 @@ func c01Gen(r *simrt.RNG, tier string) interface{} {
 		if r.Bool(0.3) {
 			n := 1 + r.Intn(2)
 			for k := 0; k < n; k++ {
-				ru.Scope = append(ru.Scope, c01ScopePaths[r.Intn(len(c01ScopePaths))])
+				ru.Scope = append(ru.Scope, c01GenScopePath(r))
 			}
 		}
 		p.Rules = append(p.Rules, ru)
@@ -212,7 +236,7 @@ func c01Gen(r *simrt.RNG, tier string) interface{} {
 		}
 		n := r.Intn(3)
 		for k := 0; k < n; k++ {
-			sc[c01ScopePaths[r.Intn(len(c01ScopePaths))]] = r.Bool(0.5)
+			sc[c01GenScopePath(r)] = r.Bool(0.5)
 		}
 		p.Scopes = append(p.Scopes, sc)
 	}
@@ -255,6 +279,31 @@ func c01Gen(r *simrt.RNG, tier string) interface{} {
 			evs = append(evs, e)
 		}
 		p.Clients = append(p.Clients, evs)
+	}
+	if r.Bool(0.15) {
+		// some cascades use the processor's default scope (no scope given); a few of their
+		// owners then edit the scope of their own root monitor
+		edit := func(e *c01Event) {
+			if r.Bool(0.5) {
+				e.DefScope = true
+				if r.Bool(0.4) {
+					e.Edit = map[string]bool{}
+					for k := 0; k < 1+r.Intn(2); k++ {
+						e.Edit[c01GenScopePath(r)] = r.Bool(0.3)
+					}
+				}
+			}
+		}
+		for c := range p.Clients {
+			for i := range p.Clients[c] {
+				edit(&p.Clients[c][i])
+			}
+		}
+		if p.Reload != nil {
+			for i := range p.Reload.Clients[0] {
+				edit(&p.Reload.Clients[0][i])
+			}
+		}
 	}
 	if p.Reload != nil {
 		// events of kinds already seen before the reload (the pre-check cache must not survive it)
@@ -472,8 +521,8 @@ func refKindMatch(pattern, kind string) bool {
 	return true
 }
 
-// refStateMatch returns (matches, defined); defined=false when the comparison
-// involves a container value, for which "equal value" is not defined.
+// refStateMatch returns (matches, defined); defined is always true now that
+// "equal value" is read as structural equality for lists and maps.
 func refStateMatch(ru *c01Rule, ev *c01Event) (bool, bool) {
 	if !ru.HasState {
 		return true, true
@@ -509,10 +558,7 @@ func refStateMatch(ru *c01Rule, ev *c01Event) (bool, bool) {
 				return false, true
 			}
 		default:
-			if want.container() || have.container() {
-				defined = false
-				continue
-			}
+			// lists and maps: equal means structurally equal
 			if want.T != have.T || want.S != have.S || want.N != have.N {
 				return false, true
 			}
@@ -554,7 +600,7 @@ func refScopeAllowed(scope map[string]bool, path string) bool {
 // which the statement leaves the outcome open (container comparisons).
 func refExpected(p *c01Plan, ev *c01Event) (must map[string]bool, open map[string]bool) {
 	must, open = map[string]bool{}, map[string]bool{}
-	scope := p.Scopes[ev.Scope]
+	scope := ev.scopeMap(p)
 	cand := map[string]bool{}
 	candOpen := map[string]bool{}
 	for i := range p.Rules {
@@ -665,7 +711,7 @@ func c01Run(p *c01Plan) {
 				in.childrenAdded = true
 				for ci := range in.ev.Children {
 					c := &in.ev.Children[ci]
-					c.Scope = in.ev.Scope
+					c.Scope, c.DefScope, c.Edit = in.ev.Scope, in.ev.DefScope, in.ev.Edit
 					ch := newInst(c)
 					addEvent(ch, m.NewChildMonitor(c.PauseNs%3), false)
 				}
@@ -748,7 +794,16 @@ func c01Run(p *c01Plan) {
 						simtime.Sleep(simtime.Duration(ev.PauseNs))
 					}
 					in := newInst(ev)
-					rm := proc.NewRootMonitor(nil, engine.NewRuleScope(p.Scopes[ev.Scope]))
+					var rm *engine.RootMonitor
+					if ev.DefScope {
+						rm = proc.NewRootMonitor(nil, nil)
+						for _, k := range keysOf(ev.Edit) {
+							rm.Scope().Add(k, ev.Edit[k])
+						}
+						simrt.Count("reach_default_scope")
+					} else {
+						rm = proc.NewRootMonitor(nil, engine.NewRuleScope(p.Scopes[ev.Scope]))
+					}
 					addEvent(in, rm, ev.Wait)
 				}
 			})
@@ -817,6 +872,6 @@ func c01CheckInst(p *c01Plan, in *c01Inst, when string) {
 				sig = "firing/fired-more-than-once"
 			}
 		}
-		simrt.Fail("oracle:firing", sig, "%s: event %q kind %s state %v scope %v: %s", when, in.ev.Name, fmt.Sprintf("%q", in.ev.segs()), in.ev.State, p.Scopes[in.ev.Scope], strings.Join(diff, "; "))
+		simrt.Fail("oracle:firing", sig, "%s: event %q kind %s state %v scope %v: %s", when, in.ev.Name, fmt.Sprintf("%q", in.ev.segs()), in.ev.State, in.ev.scopeMap(p), strings.Join(diff, "; "))
 	}
 }
